@@ -96,6 +96,27 @@ def dh_writers(ctx, rule):
               'self.dh (the DH object of our own outstanding request) is written only where a request or its INVALID_KE retry is '
               'generated, never while answering the peer\'s request', key=(rule, 'dh-writers', ','.join(sorted(writers - allowed))),
               detail={'writers': sorted(writers)})
+    # the INVALID_KE retry refreshes the DH object of the exchange that is in progress: the successor's while an IKE_SA rekey is
+    # outstanding (state REK_IKE_SA_REQ_SENT), our own otherwise - decided by the state, not by whatever `new_ike_sa` still holds
+    # from an earlier, refused rekey
+    fi = ctx.func(IKESA + '.process_create_child_sa_response')
+    S = ctx.sval(fi)
+    rek = S.expr('self.state == IkeSa.State.REK_IKE_SA_REQ_SENT')
+    n = 0
+    for t, v, pc, st, _ in S.stores:
+        t = strip_ids(t)
+        if t[0] == 'attr' and t[2] == 'dh':
+            n += 1
+            if t[1] == P('self'):
+                ok = tq.entails(pc, ('not', rek)) is True
+            elif t[1] == attr(P('self'), 'new_ike_sa'):
+                ok = tq.entails(pc, rek) is True
+            else:
+                ok = False
+            ctx.check(ok, rule, 'process_create_child_sa_response: the retry\'s DH object is stored on the successor exactly while an IKE_SA '
+                      'rekey is outstanding, else on this IKE_SA', key=(rule, 'dh-retry-owner', tq.text(t, 60)), site=ctx.site(fi, st),
+                      detail={'stored to': tq.text(t, 120)})
+    ctx.floor('%s INVALID_KE retries in process_create_child_sa_response' % rule, n, 2, rule=rule)
 
 
 def run(ctx):
